@@ -18,16 +18,31 @@
 #           op_mode 1 (UTMI "non-driving") => neither d_p.oe nor d_n.oe on any 48 MHz tick; pullup.o == term_select;
 #           pulldown.o follows the pull-down requests (equal requests -> that value; the PHY has one pin for the two
 #           requests, so with unequal requests either value is admitted).
-#   tx      one action = one UTMI transmission (tx_valid high, next byte on every tx_ready sampled at the 12 MHz edge,
+#   tx      one action = one UTMI transmission (tx_valid high, next byte after every tx_ready sampled at the 12 MHz edge,
 #           tx_valid dropped after the last byte) followed by a gap; the monitor samples d_p/d_n/oe on every 48 MHz tick
-#           and demands exactly one contiguous driven burst equal to encode(bytes) at 4 ticks per symbol.
-#   rx      one action = one line packet played at 4 ticks per bit from any of the 4 sampling phases, optionally with one
-#           bit cell 1 tick short/long (the image of +-0.25 % drift on packets of this length: at most one slip), followed
-#           by a gap (2 bit times = minimum inter-packet delay, or longer); the monitor (carried across actions, so short
-#           gaps overlap the previous packet's delivery) demands: rx_active rises, exactly the packet's bytes on
-#           rx_valid/rx_data at 12 MHz edges, rx_active falls, all before DL ticks after the EOP, no rx_error.  A packet
-#           with an omitted stuff bit (seven 1s) must show rx_error at a 12 MHz edge before rx_active falls.
-#   mixed   tx and rx actions interleaved (bus turn-around both ways).
+#           and demands exactly one contiguous driven burst equal to encode(bytes) at 4 ticks per symbol.  Closure over
+#           all byte sequences of the alphabet x gaps.  tx-pid: first byte a PID, tx_data = 0 while idle (how a USB
+#           function uses the PHY); tx-raw: any first byte; tx-junk: tx_data = 0xFF whenever tx_valid is low.
+#   rx      one action = one line packet played at 4 ticks per bit from any of the 4 sampling phases, followed by a gap
+#           (2 bit times = minimum inter-packet delay, or longer).  The monitor is carried across actions (short gaps
+#           overlap the previous packet's delivery) and demands: rx_active rises, exactly the packet's bytes on
+#           rx_valid/rx_data at 12 MHz edges, rx_active falls, all within DL ticks after the EOP, no rx_error at a 12 MHz
+#           edge while rx_active.  A packet with an omitted stuff bit (seven 1s) must show rx_error at a 12 MHz edge
+#           while rx_active, before its EOP is over.
+#           rx-seq / rx-seq-deep: all packet pairs / triples; rx-wrap: closure over a two-packet alphabet (all pointer
+#           positions of the two clock-domain-crossing FIFOs); rx-allbytes: PID + every byte value; rx-slip+1/-1: one bit
+#           cell of 5 / 3 ticks at every position (the image of +-0.25 % drift on short packets), also after a
+#           back-to-back predecessor and with a back-to-back successor; rx-long-2slips (thorough): an 18-byte packet
+#           with two slips of the same sign >= 100 bit cells apart (1 tick in 400 = 0.25 %).
+#   mixed   tx and rx actions interleaved (bus turn-around both ways), bounded depth.
+#
+# Rule signatures: drives-in-nondriving-mode, pullup-not-term-select, pulldown-not-following-request;
+#   tx-sync / tx-eop / tx-se1 / tx-bit-timing / tx-bus-released-inside-packet / tx-oe-differs-between-pins / tx-not-completed /
+#   tx-stuffing / tx-stuffing:sync-one-not-counted / tx-spurious-bit-after-sync / tx-length / tx-bytes-corrupted /
+#   tx-bytes-dropped-or-duplicated / tx-encoding;
+#   rx-active-missing / rx-active-stuck / rx-spurious-active / rx-spurious-data / rx-valid-outside-active / rx-bytes-short /
+#   rx-bytes-extra / rx-bytes-mismatch / rx-error-on-good-packet / rx-stuff-error:not-reported /
+#   rx-stuff-error:pulse-missed-by-12mhz-clock.
 import os
 from rtlmc.model import Design, Violation
 from rtlmc.explore import Spec
@@ -347,8 +362,8 @@ class PhySpec(Spec):
                   "from tx_valid to SYNC is not constrained (only bounded for termination)"]
         if self.mode in ("rx", "mixed"):
             a += ["received packets: D+ and D- change on the same 48 MHz tick (no differential skew), 4 ticks per bit, any "
-                  "of the 4 sampling phases, at most one bit cell of 3 or 5 ticks per packet (+-0.25 % drift over packets "
-                  "of <= 7 bytes cannot slip more than once)",
+                  "of the 4 sampling phases; drift is modelled as bit cells of 3 or 5 ticks: at most one per packet of <= 7 bytes, "
+                  f"two of the same sign >= {MIN_SLIP_DISTANCE} bit cells apart in the 18-byte packet (1 tick in 400 = 0.25 %)",
                   "received packets start with a valid PID byte (USB 2.0 8.3.1), as every correctly formed packet does",
                   "inter-packet gap >= 2 bit times of idle J after the EOP's J bit",
                   f"delivery (rx_active rise, bytes, rx_active fall) must complete within {DL} ticks ({DL // 4} bit times) "
